@@ -65,7 +65,10 @@ func (r *recLimiter) String() string { return "recLimiter(" + r.name + ")" }
 
 var outcomes = []string{"success", "ignore", "dropped"}
 var respTypes = []gclGrpc.ResponseType{gclGrpc.ResponseTypeSuccess, gclGrpc.ResponseTypeIgnore, gclGrpc.ResponseTypeDropped}
-var codeChoices = []codes.Code{codes.ResourceExhausted, codes.Unavailable, codes.Aborted, codes.DeadlineExceeded, codes.PermissionDenied}
+// every non-OK status code of the gRPC specification (a classifier may choose any of them)
+var codeChoices = []codes.Code{codes.ResourceExhausted, codes.Unavailable, codes.Aborted, codes.DeadlineExceeded, codes.PermissionDenied,
+	codes.Canceled, codes.Unknown, codes.InvalidArgument, codes.NotFound, codes.AlreadyExists, codes.FailedPrecondition, codes.OutOfRange,
+	codes.Unimplemented, codes.Internal, codes.DataLoss, codes.Unauthenticated}
 
 // exceededErr is what a limit-exceeded classifier returns as its error: a plain error, a gRPC status error carrying a
 // different code than the one the classifier chose, or an error wrapping such a status.  The chosen code must win.
@@ -120,6 +123,9 @@ func judge(idx int64, kind string, lg *log, cfg rt.J, limName string, otherLims 
 	fail := func(sig string) bool {
 		rt.Violation("C14/"+kind+"/"+sig, idx, rt.J{"config": cfg, "events": ev, "expected_limiter": limName, "granted": granted, "expected_outcome": wantOutcome})
 		return false
+	}
+	if n, _ := count(ev, "badargs:"); n > 0 {
+		return fail("classifier-not-given-the-arguments-of-the-call")
 	}
 	nAcq, iAcq := count(ev, "acquire:"+limName)
 	for _, o := range otherLims {
@@ -207,18 +213,31 @@ func unaryCase(idx int64, r *rand.Rand) {
 	if useLim {
 		opts = append(opts, gclGrpc.WithLimiter(lim))
 	}
+	// the request, the reply and the call info are distinct objects: a classifier decides from what it is handed
+	var reqV interface{} = &struct{ Req int }{1}
+	var replyV interface{} = &struct{ Reply int }{2}
+	infoV := &golangGrpc.UnaryServerInfo{FullMethod: "/svc/M"}
 	if useCls {
 		opts = append(opts, gclGrpc.WithServerResponseTypeClassifier(func(ctx context.Context, req interface{}, info *golangGrpc.UnaryServerInfo, rsp interface{}, err error) gclGrpc.ResponseType {
 			lg.add("classify:server")
+			if req != reqV || info != infoV || rsp != respAny || err != handlerErr {
+				lg.add("badargs:classify:server")
+			}
 			return respTypes[clsOut]
 		}), gclGrpc.WithClientResponseTypeClassifier(func(ctx context.Context, method string, req, reply interface{}, err error) gclGrpc.ResponseType {
 			lg.add("classify:client")
+			if method != "/svc/M" || req != reqV || reply != replyV || err != handlerErr {
+				lg.add("badargs:classify:client")
+			}
 			return respTypes[clsOut]
 		}))
 	}
 	if useExc {
 		opts = append(opts, gclGrpc.WithLimitExceededResponseClassifier(func(ctx context.Context, method string, req interface{}, l core.Limiter) (interface{}, codes.Code, error) {
 			lg.add("exceeded:main")
+			if method != "/svc/M" || req != reqV || l != core.Limiter(lim) {
+				lg.add("badargs:exceeded:main")
+			}
 			return excResp, excCode, excErr
 		}))
 	}
@@ -249,14 +268,20 @@ func unaryCase(idx int64, r *rand.Rand) {
 	}
 	if server {
 		ic := gclGrpc.UnaryServerInterceptor(opts...)
-		gotResp, gotErr = ic(ctx, "req", &golangGrpc.UnaryServerInfo{FullMethod: "/svc/M"}, func(ctx context.Context, req interface{}) (interface{}, error) {
+		gotResp, gotErr = ic(ctx, reqV, infoV, func(ctx context.Context, req interface{}) (interface{}, error) {
 			lg.add("wrapped")
+			if req != reqV {
+				lg.add("badargs:handler")
+			}
 			return respAny, handlerErr
 		})
 	} else {
 		ic := gclGrpc.UnaryClientInterceptor(opts...)
-		gotErr = ic(ctx, "/svc/M", "req", "reply", nil, func(ctx context.Context, method string, req, reply interface{}, cc *golangGrpc.ClientConn, o ...golangGrpc.CallOption) error {
+		gotErr = ic(ctx, "/svc/M", reqV, replyV, nil, func(ctx context.Context, method string, req, reply interface{}, cc *golangGrpc.ClientConn, o ...golangGrpc.CallOption) error {
 			lg.add("wrapped")
+			if method != "/svc/M" || req != reqV || reply != replyV {
+				lg.add("badargs:invoker")
+			}
 			return handlerErr
 		})
 	}
@@ -330,6 +355,9 @@ func streamCase(idx int64, r *rand.Rand) {
 	useCls := r.IntN(4) != 0
 	useExc := r.IntN(3) != 0
 	clsOut := 0
+	var curMsg interface{} // the message of the stream operation in progress
+	var curErr error       // and the error the wrapped operation returns
+	sinfo := &golangGrpc.StreamServerInfo{FullMethod: "/svc/S"}
 	recvCode, sendCode := codeChoices[r.IntN(len(codeChoices))], codeChoices[r.IntN(len(codeChoices))]
 	recvErr, sendErr := exceededErr(r, recvCode, "recv limit exceeded"), exceededErr(r, sendCode, "send limit exceeded")
 	var opts []gclGrpc.StreamInterceptorOption
@@ -350,18 +378,30 @@ func streamCase(idx int64, r *rand.Rand) {
 	if useCls {
 		opts = append(opts, gclGrpc.WithStreamServerResponseTypeClassifier(func(ctx context.Context, req interface{}, info *golangGrpc.StreamServerInfo, err error) gclGrpc.ResponseType {
 			lg.add("classify:stream-server")
+			if req != curMsg || info != sinfo || err != curErr {
+				lg.add("badargs:classify:stream-server")
+			}
 			return respTypes[clsOut]
 		}), gclGrpc.WithStreamClientResponseTypeClassifier(func(ctx context.Context, req interface{}, info *golangGrpc.StreamServerInfo, err error) gclGrpc.ResponseType {
 			lg.add("classify:stream-client")
+			if req != curMsg || info != sinfo || err != curErr {
+				lg.add("badargs:classify:stream-client")
+			}
 			return respTypes[clsOut]
 		}))
 	}
 	if useExc {
 		opts = append(opts, gclGrpc.WithStreamRecvLimitExceededResponseClassifier(func(ctx context.Context, method string, req interface{}, l core.Limiter) (interface{}, codes.Code, error) {
 			lg.add("exceeded:recv")
+			if method != "/svc/S" || req != curMsg || l != core.Limiter(recvL) {
+				lg.add("badargs:exceeded:recv")
+			}
 			return nil, recvCode, recvErr
 		}), gclGrpc.WithStreamSendLimitExceededResponseClassifier(func(ctx context.Context, method string, req interface{}, l core.Limiter) (interface{}, codes.Code, error) {
 			lg.add("exceeded:send")
+			if method != "/svc/S" || req != curMsg || l != core.Limiter(sendL) {
+				lg.add("badargs:exceeded:send")
+			}
 			return nil, sendCode, sendErr
 		}))
 	}
@@ -378,7 +418,7 @@ func streamCase(idx int64, r *rand.Rand) {
 	var seq []string
 	handlerRet := fmt.Errorf("handler result")
 	bad := false
-	ret := ic("srv", fs, &golangGrpc.StreamServerInfo{FullMethod: "/svc/S"}, func(srv interface{}, ss golangGrpc.ServerStream) error {
+	ret := ic("srv", fs, sinfo, func(srv interface{}, ss golangGrpc.ServerStream) error {
 		for i := 0; i < nops && !bad; i++ {
 			send := r.IntN(2) == 0
 			granted := r.IntN(4) != 0
@@ -390,13 +430,14 @@ func streamCase(idx int64, r *rand.Rand) {
 			fs.recvErr, fs.sendErr = opErr, opErr
 			clsOut = r.IntN(3)
 			lg.ev = nil
+			curMsg, curErr = &struct{ M int }{i}, opErr
 			var got error
 			name, lim, other, used, tag := "recv", "recv", "send", useRecvL, "wrapped:recv"
 			if send {
 				name, lim, other, used, tag = "send", "send", "recv", useSendL, "wrapped:send"
-				got = ss.SendMsg("m")
+				got = ss.SendMsg(curMsg)
 			} else {
-				got = ss.RecvMsg("m")
+				got = ss.RecvMsg(curMsg)
 			}
 			seq = append(seq, fmt.Sprintf("%s granted=%v err=%v", name, granted, opErr != nil))
 			rt.Count("stream_ops", 1)
